@@ -194,6 +194,9 @@ func (w *vsWorld) local(r *vsRep, name string, val string) (applicable bool, res
 		case "putK":
 			_, err := r.d.PutToObject("k", val)
 			return true, fmt.Sprint(err)
+		case "putNums":
+			_, err := r.d.PutToObject("nums", []interface{}{1e19, -1e19, 0.5, 3, uint64(18446744073709551615)})
+			return true, fmt.Sprint(err)
 		case "putArr":
 			_, err := r.d.PutToObject("arr", []interface{}{val, val + "b"})
 			return true, fmt.Sprint(err)
@@ -251,7 +254,7 @@ var vsLocalSteps = map[string][]string{
 	"list":    {"ins0", "insEnd", "delFirst", "delLast", "upd0", "updLast"},
 	"map":     {"put1", "put2", "rem1", "rem2"},
 	"counter": {"inc1", "inc5"},
-	"doc":     {"putArr", "putObj", "putK", "delObj", "arrIns0", "arrInsEnd", "arrDelLast", "arrUpd0", "putEmptyArr"},
+	"doc":     {"putArr", "putObj", "putK", "delObj", "arrIns0", "arrInsEnd", "arrDelLast", "arrUpd0", "putEmptyArr", "putNums"},
 }
 
 func vsAlphabet(kind string) []string {
